@@ -156,6 +156,8 @@ pub enum AxisClass {
     /// almost uniform: uniform spacing with a relative jitter of 2^-16 .. 2^-36 per knot (an even f32
     /// axis widened to f64, time stamps with small jitter, values parsed from 7-digit text)
     Jittered,
+    /// non-uniform but mirror-symmetric about its centre (first and last intervals bit-equal, ...)
+    Symmetric,
 }
 
 impl AxisClass {
@@ -170,9 +172,10 @@ impl AxisClass {
             AxisClass::Dyadic => "dyadic",
             AxisClass::Anchored => "anchored",
             AxisClass::Jittered => "jittered",
+            AxisClass::Symmetric => "symmetric",
         }
     }
-    pub const ALL: [AxisClass; 9] = [
+    pub const ALL: [AxisClass; 10] = [
         AxisClass::Index,
         AxisClass::Unit,
         AxisClass::Uniform,
@@ -182,6 +185,7 @@ impl AxisClass {
         AxisClass::Dyadic,
         AxisClass::Anchored,
         AxisClass::Jittered,
+        AxisClass::Symmetric,
     ];
 }
 
@@ -293,6 +297,27 @@ pub fn axis<T: Flt>(src: &mut Src, n: usize, class: AxisClass, max_ratio_log2: O
                 x.push(cur);
             }
         }
+        AxisClass::Symmetric => {
+            // dyadic steps mirrored about the centre: h[i] == h[n-2-i] exactly
+            let g = src.int_in(-4, 8) as i32;
+            let maxstep = match max_ratio_log2 {
+                Some(b) => 1u64 << b.min(5),
+                None => 32,
+            };
+            let m = n - 1;
+            let mut steps = vec![0u64; m];
+            for i in 0..m.div_ceil(2) {
+                let s = 1 + src.below(maxstep);
+                steps[i] = s;
+                steps[m - 1 - i] = s;
+            }
+            let mut cur = src.int_in(-40, 40);
+            x.push(cur as f64 * 2f64.powi(-g));
+            for s in steps {
+                cur += s as i64;
+                x.push(cur as f64 * 2f64.powi(-g));
+            }
+        }
         AxisClass::Jittered => {
             let e = src.int_in(-(T::EWIN as i64) / 2, (T::EWIN as i64) / 2) as i32;
             let h = (1.0 + src.unit()) * 2f64.powi(e);
@@ -379,7 +404,7 @@ pub fn axis<T: Flt>(src: &mut Src, n: usize, class: AxisClass, max_ratio_log2: O
 }
 
 pub fn axis_class(src: &mut Src) -> AxisClass {
-    AxisClass::ALL[src.weighted(&[2, 2, 3, 3, 3, 4, 3, 2, 2])]
+    AxisClass::ALL[src.weighted(&[2, 2, 3, 3, 3, 4, 3, 2, 2, 2])]
 }
 
 pub fn is_uniform(x: &[f64]) -> bool {
@@ -398,6 +423,8 @@ pub enum QClass {
     Mid,
     Quarter,
     Random,
+    /// a point of the even grid spanned by the axis ends: x0 + j (xn - x0)/(n-1)
+    EvenGrid,
 }
 
 impl QClass {
@@ -411,6 +438,7 @@ impl QClass {
             QClass::Mid => "q:mid",
             QClass::Quarter => "q:quarter",
             QClass::Random => "q:random",
+            QClass::EvenGrid => "q:even-grid",
         }
     }
 }
@@ -418,7 +446,7 @@ impl QClass {
 /// One in-range query (always inside [x0, xn], exactly representable in T).
 pub fn query_in_range<T: Flt>(src: &mut Src, x: &[f64]) -> (f64, QClass) {
     let n = x.len();
-    let class = match src.weighted(&[3, 2, 2, 1, 1, 2, 2, 4]) {
+    let class = match src.weighted(&[3, 2, 2, 1, 1, 2, 2, 4, 2]) {
         0 => QClass::Knot,
         1 => QClass::KnotUp,
         2 => QClass::KnotDown,
@@ -426,7 +454,8 @@ pub fn query_in_range<T: Flt>(src: &mut Src, x: &[f64]) -> (f64, QClass) {
         4 => QClass::Last,
         5 => QClass::Mid,
         6 => QClass::Quarter,
-        _ => QClass::Random,
+        7 => QClass::Random,
+        _ => QClass::EvenGrid,
     };
     let lo = T::of(x[0]);
     let hi = T::of(x[n - 1]);
@@ -453,6 +482,10 @@ pub fn query_in_range<T: Flt>(src: &mut Src, x: &[f64]) -> (f64, QClass) {
         QClass::Random => {
             let i = src.below(n as u64 - 1) as usize;
             clamp(T::of(x[i] + (x[i + 1] - x[i]) * src.unit()))
+        }
+        QClass::EvenGrid => {
+            let j = src.below(n as u64) as f64;
+            clamp(T::of(x[0] + j * ((x[n - 1] - x[0]) / (n - 1) as f64)))
         }
     };
     (q, class)
